@@ -1566,6 +1566,30 @@ def _explicit_minmax(tree):
     return n
 
 
+def _roll_then_set_first(tree):
+    """a = np.roll(b, 1); a[0] = v   ->   a = np.insert(b, 0, v)[0:-1]   (shift by one, the first entry given, the last dropped)"""
+    n = 0
+    for block in _blocks(tree):
+        i = 0
+        while i + 1 < len(block):
+            a, b = block[i], block[i + 1]
+            if isinstance(a, ast.Assign) and len(a.targets) == 1 and isinstance(a.targets[0], ast.Name) and isinstance(a.value, ast.Call) \
+                    and ast.unparse(a.value.func) in ("np.roll", "numpy.roll") and len(a.value.args) == 2 and not a.value.keywords \
+                    and isinstance(a.value.args[1], ast.Constant) and a.value.args[1].value == 1 \
+                    and isinstance(b, ast.Assign) and len(b.targets) == 1 and isinstance(b.targets[0], ast.Subscript) \
+                    and isinstance(b.targets[0].value, ast.Name) and b.targets[0].value.id == a.targets[0].id \
+                    and isinstance(b.targets[0].slice, ast.Constant) and b.targets[0].slice.value == 0 \
+                    and not any(isinstance(x, ast.Name) and x.id == a.targets[0].id for x in ast.walk(b.value)):
+                ins = ast.Call(func=a.value.func.__class__(value=a.value.func.value, attr="insert", ctx=ast.Load()) if isinstance(a.value.func, ast.Attribute) else a.value.func,
+                               args=[a.value.args[0], ast.Constant(value=0), b.value], keywords=[])
+                sl = ast.Subscript(value=ins, slice=ast.Slice(lower=ast.Constant(value=0), upper=ast.UnaryOp(op=ast.USub(), operand=ast.Constant(value=1)), step=None), ctx=ast.Load())
+                block[i:i + 2] = [ast.copy_location(ast.Assign(targets=a.targets, value=sl, lineno=a.lineno), a)]
+                n += 1
+                continue
+            i += 1
+    return n
+
+
 def normalize_module(tree):
     """in-place; returns a dict of counters (how many constructs were normalised) for the evidence"""
     repo_sigs = {}
@@ -1580,6 +1604,7 @@ def normalize_module(tree):
                update_to_item=_update_to_item_assignment(tree), local_defs_to_lambdas=_local_defs_to_lambdas(tree),
                dict_zip_to_literal=_dict_zip_to_literal(tree))
     out["flag_loops_to_any"] = _flag_loops_to_any(tree)
+    out["roll_then_set_first"] = _roll_then_set_first(tree)
     out["explicit_minmax"] = _explicit_minmax(tree)
     out["itemgetter_calls"] = _itemgetter_calls(tree)
     out["iter_while_to_for"] = _iter_while_to_for(tree)
